@@ -66,7 +66,9 @@ class Harness {
       const args = this.wrapper ? this.wrapper.slice(1).concat([this.bin]) : []
       this.stats.processes++
       const r = spawnSync(cmd, args, { input: lines, env: this.env, maxBuffer: 1 << 30, timeout, killSignal: 'SIGKILL' })
-      this.lastStderr = r.stderr ? r.stderr.toString().slice(-4000) : ''
+      this.lastStderr = r.stderr ? r.stderr.toString().slice(-6000) : ''
+      this.lastStatus = r.status
+      if (r.stderr && r.stderr.length) this.stderrAll = (this.stderrAll || '') + r.stderr.toString().slice(-20000)
       const out = r.stdout ? r.stdout.toString('utf8').split('\n').filter(l => l.length) : []
       const got = out.slice(news.length)
       let n = 0
